@@ -87,11 +87,13 @@ func runLayers(tier string) []Layer {
 			{Name: "run-hash", Kinds: HashKinds, Geos: runGeos([]int{40, 64, 100}), Level: 1, Inputs: RunInputs(all, vals), Menu: menu, Bound: 1, NoTrack: true},
 			{Name: "run-hash-b2", Kinds: HashKinds, Geos: runGeos([]int{40, 100}), Level: 0, Inputs: RunInputs([]int{32, 33, 47, 80, 130}, vals), Menu: menu, Bound: 2, NoTrack: true},
 			{Name: "run-sa", Kinds: sa, Geos: runGeos([]int{40, 100}), Level: 1, Inputs: RunInputs([]int{32, 33, 34, 40, 47, 64, 65, 80, 130}, vals), Menu: menu, Bound: 1, CfgFilter: notGSAPWindow1, CfgPerShard: 2},
+			{Name: "run-default-tables", Kinds: Kinds, CfgsFn: func() []PCfg { return defaultTableConfigs(runGeos([]int{40, 100})) }, Inputs: RunInputs([]int{32, 33, 47, 65, 130, 200}, vals), Menu: menu, Bound: 1, CfgPerShard: 2, NoTrack: true},
 		}
 	}
 	return []Layer{
 		{Name: "run-hash", Kinds: HashKinds, Geos: runGeos([]int{40, 100}), Level: 0, Inputs: RunInputs([]int{32, 33, 34, 40, 47, 64, 65, 80, 130}, vals), Menu: menu, Bound: 1, NoTrack: true},
 		{Name: "run-sa", Kinds: sa, Geos: runGeos([]int{40, 100}), Level: 0, Inputs: RunInputs([]int{32, 33, 40, 65, 130}, vals), Menu: menu, Bound: 0, CfgFilter: notGSAPWindow1, CfgPerShard: 2},
 		{Name: "run-sa-b1", Kinds: sa, Geos: runGeos([]int{40}), Level: 0, Inputs: RunInputs([]int{33, 47}, []byte{0x00, 'a'}), Menu: menu, Bound: 1, CfgFilter: notGSAPWindow1, CfgPerShard: 2},
+		{Name: "run-default-tables", Kinds: Kinds, CfgsFn: func() []PCfg { return defaultTableConfigs(runGeos([]int{100})) }, Inputs: RunInputs([]int{33, 65, 130}, vals), Menu: menu, Bound: 0, CfgPerShard: 2, NoTrack: true},
 	}
 }
